@@ -29,15 +29,15 @@ N == Len(Rec)
 Res == {"tsm", "tls", "closure", "stack"}
 
 VARIABLES i, run, ran, fin, spawned, hs, st, relby, nval, nvalfreed, synced, exitSeen, dvd,
-          dvgiven, viol, accepted, nruns, nother, notherfreed
+          dvgiven, viol, accepted, nruns, nother, notherfreed, tok, tokd
 vars == <<i, run, ran, fin, spawned, hs, st, relby, nval, nvalfreed, synced, exitSeen, dvd,
-          dvgiven, viol, accepted, nruns, nother, notherfreed>>
+          dvgiven, viol, accepted, nruns, nother, notherfreed, tok, tokd>>
 
 Fresh ==
     /\ ran = 0 /\ fin = "no" /\ spawned = "no" /\ hs = "none"
     /\ st = [r \in Res |-> "none"] /\ relby = [r \in Res |-> "-"]
     /\ nval = 0 /\ nvalfreed = 0 /\ synced = FALSE /\ exitSeen = FALSE /\ dvd = 0 /\ dvgiven = FALSE
-    /\ nother = 0 /\ notherfreed = 0
+    /\ nother = 0 /\ notherfreed = 0 /\ tok = FALSE /\ tokd = 0
 
 Init ==
     /\ i = 1 /\ run = 0 /\ viol = <<>> /\ accepted = 0 /\ nruns = 0
@@ -90,6 +90,7 @@ Broken(e) ==
                  \cup (IF relby["tsm"] # "T" /\ e.disarmed THEN {"cleartid_disarmed_but_owner_waits"} ELSE {})
       \* the closure found a value it owns (captured by value) at an address its type does not allow,
       \* or with other content than it was given: it does not run on what was passed to spawn
+      [] e.e = "tokdrop" -> IF tokd >= 1 THEN {"closure_captures_dropped_twice"} ELSE {}
       [] e.e = "capbad" -> {"closure_capture_misplaced_or_corrupted"}
       [] e.e = "timeout" -> {"hang_in_" \o e.op}
       [] e.e = "crash" -> {"crash"}
@@ -109,6 +110,10 @@ Broken(e) ==
             \* block allocated on a path that returns before its role is announced): it belongs to the
             \* runtime like the others and must be gone at quiescence, whatever spawn returned
             \cup (IF notherfreed < nother THEN {"leak_spawn_block"} ELSE {})
+            \* what the closure OWNS (a captured token whose destructor reports itself): dropped exactly
+            \* once when the closure was consumed - it ran to its end, or spawn failed and gave it up;
+            \* only a closure that panicked keeps it for ever
+            \cup (IF tok /\ tokd = 0 /\ (spawned = "err" \/ (spawned = "ok" /\ fin = "ret")) THEN {"closure_captures_not_dropped"} ELSE {})
             \cup (IF e.dv /\ fin = "ret" /\ hs \in {"joined", "dropped"} /\ dvd = 0 THEN {"result_not_dropped"} ELSE {})
       [] e.e = "batch" ->
             (IF e.badfree > 0 THEN {"bad_free_unattributed"} ELSE {})
@@ -136,6 +141,8 @@ Apply(e) ==
     /\ nvalfreed' = IF e.e = "rel" /\ e.r = "val" THEN nvalfreed + 1 ELSE nvalfreed
     /\ nother' = IF e.e = "acq" /\ e.r = "other" THEN nother + 1 ELSE nother
     /\ notherfreed' = IF e.e = "rel" /\ e.r = "other" THEN notherfreed + 1 ELSE notherfreed
+    /\ tok' = (tok \/ e.e = "tok")
+    /\ tokd' = IF e.e = "tokdrop" THEN tokd + 1 ELSE tokd
     /\ synced' = (synced \/ (e.e = "xload" /\ e.val = 0 /\ e.acq))
     /\ exitSeen' = (exitSeen \/ (e.e = "xload" /\ e.val = 0))
     /\ dvd' = IF e.e = "vdrop" THEN dvd + 1 ELSE dvd
@@ -150,7 +157,7 @@ Step ==
             /\ ran' = 0 /\ fin' = "no" /\ spawned' = "no" /\ hs' = "none"
             /\ st' = [r \in Res |-> "none"] /\ relby' = [r \in Res |-> "-"]
             /\ nval' = 0 /\ nvalfreed' = 0 /\ synced' = FALSE /\ exitSeen' = FALSE /\ dvd' = 0 /\ dvgiven' = FALSE
-            /\ nother' = 0 /\ notherfreed' = 0
+            /\ nother' = 0 /\ notherfreed' = 0 /\ tok' = FALSE /\ tokd' = 0
             /\ UNCHANGED <<viol, accepted>>
        ELSE /\ LET b == Broken(e) IN
                  viol' = IF b = {} THEN viol ELSE Append(viol, [run |-> run, at |-> i, rules |-> b])
